@@ -93,7 +93,8 @@ prop("C08", "other", "static error/exact-write discipline and typestate rules ov
      "All output goes through write_all/byteorder (I2); every io::Error/SavefileError/ring result is propagated or handled by an "
      "error-producing arm (I3); a BzEncoder is finish()ed and the sink flushed on every Ok path (I4, I5); a destructor does not retry and "
      "panic after a failed flush (I6).",
-     "Rules I1, I2, I3 (≈480 call sites), I4, I5, I6, K4.",
+     "Rules I1, I2, I3 (≈480 call sites), I4, I5, I6, I6b (the failure flag Drop consults is raised before the first fallible call of flush), "
+     "I7 (no Result is lost by overwriting it in a loop), K4.",
      ["hangs and chunking independence of CryptoReader's manual loop under Interrupted are not decided",
       "known finding: Drop of a never-flushed CryptoWriter panics when its implicit flush fails (documented behaviour)"],
      "error discipline on all paths", "DESIGN.md §3 C08")
@@ -123,7 +124,7 @@ prop("C13", "other", "writer⊆reader containment for the schema node types + re
      "frozen format-0 layout = format 1 without the memory-layout annotations (W8); hand-written tag tables are inverse maps (W2); "
      "diff_schema reports differences only from comparisons of corresponding paths (Q2), compares every wire-relevant fact and takes no "
      "accepting shortcut past a comparison (Q1).",
-     "Rules W1 (schema types), W8 (spec/format0_spec.json, 12 readers), W2, Q1, Q2. Known finding: Undefined vs Undefined reports a difference by design.",
+     "Rules W1 (schema types), W8 (spec/format0_spec.json, 12 readers), W8d (values of the format-0-absent fields at file_version 0), W15 (flag bits), W2, Q1, Q2. Known finding: Undefined vs Undefined reports a difference by design.",
      ["format 0 has no independent reference in the repository: spec/format0_spec.json was frozen from the pinned tree and reviewed by "
       "hand against the version gates (offset, size, alignment, discriminant_size, has_explicit_repr, string/vector layout byte)"],
      "shape agreement and comparison tables", "DESIGN.md §3 C13")
@@ -134,7 +135,7 @@ prop("C14", "other", "static necessary conditions in savefile's AEAD wrapper (re
      "occupies its own slot of the 12-byte nonce (K5, constant folding of the array construction); the nonce header written is the one "
      "read (W4); every copy-out of the decrypt buffer advances the offset by what it returns (K4); the load demands the end of the "
      "compressed stream so that no trailing chunk is optional (K7). The cryptographic guarantee itself is ring's.",
-     "Rules I3 (crypto module), K3, K4, K5, K7, W4.",
+     "Rules I3 (crypto module), K3, K4, K5, K7, K8 (a record is written only while unwritten plaintext remains: no optional records), W4.",
      ["that modification of nonce/length/ciphertext/tag is detected is ring's AES-256-GCM and is not decided here"],
      "necessary conditions only", "DESIGN.md §3 C14")
 
@@ -143,7 +144,8 @@ prop("C15", "other", "static comparison-table extraction for the ledger comparis
      "each lead to Err; return values are compared in return position.",
      "Rules Q4 (comparison table of verify_backward_compatible), Q5 (the definition is stored at a data version at which every compared "
      "field is written), Q6, Q7 (in verify_compatiblity the file name, the recorded definition, the checked definition and the version "
-     "argument are all those of the loop's version, and the loop covers 0..=latest).",
+     "argument are all those of the loop's version, and the loop covers 0..=latest), I7 (the result of a per-version check is not overwritten by "
+     "a later one), W15 (the Send/Sync/Unpin flag byte of a recorded future type is decoded with the masks it was encoded with).",
      ["file-system behaviour is not decided"],
      "completeness of the ledger comparison", "DESIGN.md §3 C15")
 
@@ -162,8 +164,9 @@ prop("C17", "other", "static classification of introspect_child / introspect_len
      "from the same container (S1). total_index: on every acyclic path of total_index_impl a frame that yields no element advances the "
      "flat cursor by exactly len(frame.keyvals) - the amount do_introspect adds to total_len - and a returned element is "
      "keyvals[index - cursor on entry - advance of the expanded sub-tree] (S3).",
-     "Rules S1 (404 impls), S3 (6 path obligations).",
-     ["that navigation never panics for arbitrary command sequences (Introspector::dive) is not decided"],
+     "Rules S1 (404 impls), S3 (6 path obligations), S4 (every unwrap in dive / do_introspect / total_index is justified by a typestate argument: "
+     "take-once guard, push before last/pop).",
+     ["index arithmetic and slice indexing in the navigation code (no underflow / in bounds) rest on data-structure invariants across calls and are not decided"],
      "child-count consistency and flat-index accounting", "DESIGN.md §3 C17")
 
 prop("C18", "translation_validation", "translation validation of derived writers specialised to older versions against the timeline model",
@@ -180,8 +183,8 @@ prop("C09", "translation_validation", "translation validation of generated ABI t
      "implementation method with that number, and the reply it writes is what the caller's result receiver reads (W9); implementation "
      "code runs only inside catch_unwind (A1) and both panic payload kinds are forwarded (A2).",
      "Rules W9 (≈40 methods × mask assignments, with ownership events), A1, A2, A3 (ownership pairing of boxed arguments), A6 "
-     "((pointer, length) pairs passed across the boundary: the length is len() of the same object), N5, M5 (compatibility mask is "
-     "initialised per method).",
+     "((pointer, length) pairs passed across the boundary: the length is len() of the same object), N5, N6 (generated closure/future helper "
+     "interfaces carry the enclosing interface's version), M5 (compatibility mask is initialised per method), M6 (argument limit = mask width).",
      ["equality of observed values, drop counts at run time and post-panic usability are not decided"],
      "mirror-image property of generated code on the corpus; the runtime effect is not observed", "DESIGN.md §3 C09")
 
@@ -191,7 +194,7 @@ prop("C10", "translation_validation", "value-origin analysis of the version labe
      "it was called with; the caller decodes the reply with the reply header's version (N3). Negotiation takes min(own, callee) (N1); a "
      "method missing in the implementation panics at call time, after a successful match of its number (N4); signature changes are "
      "rejected by the definition comparison (Q4); trampolines agree at every mask assignment (W9).",
-     "Rules N3 (every corpus trait and method), N1, N4, N5, W9, Q4, M1/M2/M4 (which definitions are compared during negotiation), and "
+     "Rules N3 (every corpus trait and method), N1, N4, N5, N6, W9, Q4, M1/M2/M4 (which definitions are compared during negotiation), and "
      "H2/W5/P2 on the evolution histories (an argument type written at the effective version has that version's layout).",
      ["values are not decided; interface families are the enumerated ones"],
      "origin of version values in generated code", "DESIGN.md §3 C10")
